@@ -678,6 +678,9 @@ class ListShapes(Part):
             try:
                 an = ipdom.make_v4(env, case["B"], None, list(nl))
             except Exception as e:
+                if isinstance(e, ValueError) and any(":" in x for x in nl):
+                    res.count("mixed_family_lists_refused")   # refusing an IPv6 entry outright is no violation of C05
+                    return res
                 res.violation("exception:" + type(e).__name__, "networks %r: %r" % (nl, e), case)
                 return res
             for k, net in enumerate(nets4):
